@@ -170,6 +170,26 @@ func FuncPkgPath(fn *ssa.Function) string {
 // Func resolves an anchor "pkgpath" + spec where spec is "f", "T.m" or
 // "(*T).m". Returns nil if it does not resolve.
 func (p *Prog) Func(pkgPath, spec string) *ssa.Function {
+	fn := p.funcByName(pkgPath, spec)
+	if fn != nil {
+		anchorMu.Lock()
+		if _, ok := Requested[pkgPath+"|"+spec]; !ok {
+			sh := shapeOf(fn)
+			sh.Pkg, sh.Spec = pkgPath, spec
+			Requested[pkgPath+"|"+spec] = sh
+		}
+		anchorMu.Unlock()
+		return fn
+	}
+	return p.resolveByShape(pkgPath, spec)
+}
+
+// IsFn reports whether fn is the function anchored as (pkgPath, spec).
+func (p *Prog) IsFn(fn *ssa.Function, pkgPath, spec string) bool {
+	return fn != nil && fn == p.Func(pkgPath, spec)
+}
+
+func (p *Prog) funcByName(pkgPath, spec string) *ssa.Function {
 	sp := p.SSAPkgs[pkgPath]
 	if sp == nil {
 		return nil
